@@ -206,6 +206,9 @@ impl<'a> BlobIngestion<'a> {
         // indirections pointing to the blob files we just created.
         let results = self.table.writer.finish()?;
 
+        #[cfg(feature = "verif_hooks")]
+        crate::verif::yield_point("ingest:before_register");
+
         // Acquire locks for version registration on the index tree. We must
         // hold both the compaction state lock and version history lock to
         // safely modify the tree's version.
